@@ -9,6 +9,7 @@ CONSTANTS
   MaxTasks <- TraceMaxTasks
 INVARIANTS
   TypeOK
+  MutexOK
   OwnResult
   NoPanic
   NoLostWakeup
